@@ -22,6 +22,8 @@ pub struct Shared {
     pub stats: BTreeMap<String, u64>,
     pub fired: Vec<Rule>,
     pub inflight_fault: bool,
+    /// true while the monitor looks at a datagram put on the wire by inject() (attacker / harness), not by an endpoint
+    pub cur_injected: bool,
 }
 
 impl Shared {
@@ -37,6 +39,7 @@ impl Shared {
             stats: BTreeMap::new(),
             fired: Vec::new(),
             inflight_fault: false,
+            cur_injected: false,
         }
     }
     pub fn now_ms(&self) -> f64 {
@@ -76,6 +79,11 @@ pub trait Monitor: Send {
     fn classify(&mut self, from: SocketAddr, to: SocketAddr, data: &[u8], sh: &mut Shared) -> Vec<String>;
     /// called when a datagram is handed to the destination socket
     fn on_deliver(&mut self, _from: SocketAddr, _to: SocketAddr, _data: &[u8], _sh: &mut Shared) {}
+}
+
+/// On-path rewriter supplied by a scenario: returns the datagrams to deliver instead of the original.
+pub trait Rewriter: Send {
+    fn rewrite(&mut self, name: &str, a: &[i64], from: SocketAddr, to: SocketAddr, data: &[u8]) -> Vec<Vec<u8>>;
 }
 
 pub struct NullMonitor;
@@ -122,6 +130,7 @@ pub struct NetInner {
     pub delivered: u64,
     pub sent: u64,
     monitor: Option<Box<dyn Monitor>>,
+    rewriter: Option<Box<dyn Rewriter>>,
     /// datagrams to these destinations are additionally copied to a capture buffer
     capture: Vec<(SocketAddr, SocketAddr, Vec<u8>)>,
     capture_on: bool,
@@ -231,11 +240,16 @@ impl SimNet {
                 delivered: 0,
                 sent: 0,
                 monitor: Some(monitor),
+                rewriter: None,
                 capture: Vec::new(),
                 capture_on: false,
             }),
             sh,
         })
+    }
+
+    pub fn set_rewriter(&self, r: Option<Box<dyn Rewriter>>) {
+        self.inner.lock().unwrap().rewriter = r;
     }
 
     pub fn set_monitor(&self, m: Box<dyn Monitor>) {
@@ -293,7 +307,9 @@ impl SimNet {
         let host = host_name(from.ip());
         let dst = host_name(to.ip());
         let mut mon = n.monitor.take().unwrap_or_else(|| Box::new(NullMonitor));
+        sh.cur_injected = injected;
         let mut tokens = mon.classify(from, to, buf, &mut sh);
+        sh.cur_injected = false;
         n.monitor = Some(mon);
         if !tokens.iter().any(|t| t == "any") {
             tokens.push("any".into());
@@ -373,6 +389,7 @@ impl SimNet {
         }
         let lat = if host == "A" { n.latency[0] } else { n.latency[1] };
         let mut data = buf.to_vec();
+        let mut rewritten: Option<Vec<Vec<u8>>> = None;
         let mut deliveries: Vec<Duration> = vec![lat];
         let mut hold: Option<u32> = None;
         let mut tag = String::new();
@@ -409,6 +426,16 @@ impl SimNet {
                     data.truncate(*len as usize);
                     "trunc"
                 }
+                Action::Rewrite { name, a } => {
+                    let mut rw = n.rewriter.take();
+                    let out = match rw.as_mut() {
+                        Some(r) => r.rewrite(name, a, from, to, buf),
+                        None => vec![buf.to_vec()],
+                    };
+                    n.rewriter = rw;
+                    rewritten = Some(out);
+                    "rewrite"
+                }
                 Action::SendErr { kind } => {
                     sh.stat("fault.senderr", 1);
                     let toks = tokens.iter().filter(|t| *t != "any").cloned().collect::<Vec<_>>().join("+");
@@ -438,6 +465,14 @@ impl SimNet {
         // never let a faulted delivery land after heal_at + its base latency
         let heal_abs = sh.t0 + n.heal_at;
         let mut first_key = None;
+        if let Some(list) = rewritten {
+            for d in list {
+                n.seq += 1;
+                let s = n.seq;
+                n.queue.insert((now + lat, s), Pending { from, to, data: d });
+            }
+            deliveries.clear();
+        }
         for d in deliveries {
             n.seq += 1;
             let s = n.seq;
